@@ -33,6 +33,8 @@ type Loaded struct {
 	pureMemo map[*ssa.Function]bool
 	funcTables map[string][]*ssa.Function
 	globalStructs map[*ssa.Global][]globalField
+	errGlobals map[*ssa.Global]errGlobal
+	constMaps  map[string]map[string]int64
 }
 
 const modulePath = "cuelabs.dev/go/oci/ociregistry"
@@ -88,6 +90,7 @@ func LoadPackages(patterns []string) (*Loaded, error) {
 	L.scanRegexGlobals()
 	L.scanFuncTables()
 	L.scanGlobalStructs()
+	L.scanErrorGlobals()
 	return L, nil
 }
 
